@@ -78,10 +78,22 @@ def make_spec():
 
 
 def build_schemas(specpath):
+    """build (or find) the schema pickles in ONE normal-mode process and pin their paths in the spec file"""
     with lib.Lock('c13_schemas'):
         rc, out, err = lib.impl_python(IMPL, [lib.REPO, '--build-schemas', specpath], timeout=3000,
-                                       extra_env={'VRT_REPO': lib.REPO, 'VERIF_REPO': lib.REPO})
-    return rc == 0 and out.strip().endswith('ok'), (out + err)[-3000:]
+                                       extra_env={'VRT_REPO': lib.REPO, 'VERIF_REPO': lib.REPO, 'C13_DET': '0'})
+    ok = rc == 0 and out.strip().endswith('ok')
+    if ok:
+        try:
+            paths = json.loads(out.strip().split('\n')[-2])
+            spec = json.load(open(specpath))
+            for sid, pth in paths.items():
+                spec['schemas'][sid]['pickle'] = pth
+            with open(specpath, 'w') as f:
+                json.dump(spec, f)
+        except (ValueError, IndexError, KeyError) as e:
+            return False, f'cannot read the pickle paths: {e}\n' + out[-2000:]
+    return ok, (out + err)[-3000:]
 
 
 # ---------------------------------------------------------------- cases
@@ -193,9 +205,12 @@ def noaslr_prefix():
     return _NOASLR
 
 
-def run_impl(lines, specpath, hashseed='0', nproc=NPROC, det=False):
+def run_impl(lines, specpath, hashseed='0', nproc=NPROC, det=0):
+    """det: 0 = the interpreter as it is; 1 = mode D in-process (three compilations, the last two compared);
+    2 = mode D with every compilation in its own fork (history-free)"""
     env = lib.impl_env(hashseed)
-    env['C13_DET'] = '1' if det else '0'
+    env['C13_DET'] = str(int(det))
+    env.setdefault('C13_CASE_TIMEOUT', '300' if det == 2 else '120')
     argv = [lib.PY, IMPL, lib.REPO, specpath]
     if det:
         argv = noaslr_prefix() + argv
@@ -407,6 +422,7 @@ def run(tier):
 
     viol = []          # (priority, what, payload, found)
     kf = []            # (id, what)
+    kf_examples = collections.defaultdict(list)
     counts = collections.Counter()
     for r in impl:
         counts['st:' + str(r.get('st'))] += 1
@@ -500,13 +516,17 @@ def run(tier):
                      payload(i, {'skeleton_diff': impl[i].get('skdiff'), 'sql': impl[i].get('sql', '')[:3000]}), True))
 
     # ---- determinism
-    # (1) normal interpreter: every statement was compiled twice in one process.
-    # (2) differences that are not just the check_scan constant are re-run in "mode D" (deterministic
-    #     identity hashes + deterministic fresh UUIDs, see c13_impl.det_install): if the statement is
-    #     reproducible there, the difference is attributed to set-iteration order over identity-hashed /
-    #     randomly-identified objects (one known finding); otherwise it is unexplained.
-    # (3) hash seeds: a sample is compiled in mode D under PYTHONHASHSEED 0 and another seed (same pickled
-    #     schema); any difference is a dependence on string hashing or process state.
+    # (1) the interpreter as it is: every statement was compiled twice in one process (above).
+    # (2) "mode D" = object-identity hashes are first-use counters, fresh UUIDs count up, no address-space
+    #     randomisation (c13_impl.det_install + setarch -R).  A statement that differed in (1) by more than the
+    #     check_scan constant and is reproducible in mode D is attributed to the known finding "set iteration
+    #     order over identity-hashed / randomly-identified objects"; if it still differs it is unexplained.
+    # (3) hash seeds: a sample is compiled in mode D under PYTHONHASHSEED 0 and other seeds (same pickled
+    #     schema, same line list).  A difference that the history-free variant of mode D (one fork per
+    #     compilation) confirms -- equal within a seed, different across seeds -- is the known finding "depends on
+    #     the hash seed"; anything else is unexplained.
+    # The cheap in-process variant (det=1) decides the common case; every negative verdict is re-examined with the
+    # fork variant (det=2) before it is reported.
     nondet_in = [i for i, r in enumerate(impl) if 'nondet-inprocess' in (r.get('mon') or [])]
     nd_classes = collections.Counter()
     rand_only = [i for i in nondet_in if obs_key(impl[i]) == obs_key2(impl[i])]
@@ -517,9 +537,12 @@ def run(tier):
     nprobe = min(len(cand), int((700 if thorough else 80) * SCALE))
     probe = sorted(rnd.sample(cand, nprobe)) if cand else []
     d_idx = sorted(set(need_d) | set(probe))
+    d_lines = [lines[i] for i in d_idx]
     t0 = time.time()
-    d0 = dict(zip(d_idx, run_impl([lines[i] for i in d_idx], specpath, hashseed='0', det=True))) if d_idx else {}
-    t_probe = time.time() - t0
+    d_runs = {}
+    for hs in ('0',) + seeds_probe:
+        d_runs[hs] = dict(zip(d_idx, run_impl(d_lines, specpath, hashseed=hs, det=1))) if d_idx else {}
+    d0 = d_runs['0']
 
     def nd_violation(i, where, a, b, extra, pr=0):
         viol.append((pr, f'not deterministic ({where}): two compilations of the same statement differ',
@@ -527,84 +550,111 @@ def run(tier):
                                                                else 'SQL text equal; argument map / descriptors differ'))),
                      True))
 
+    # what the in-process variant cannot settle
+    unsettled = set()
+    for i in d_idx:
+        d = d0.get(i) or {}
+        if d.get('st') != 'ok' or obs_key(d) != obs_key2(d):
+            unsettled.add(i)
+    cross = {hs: [i for i in probe if (d_runs[hs].get(i) or {}).get('st') != 'ok'
+                  or (d0.get(i) or {}).get('st') != 'ok'
+                  or obs_key(d_runs[hs][i]) != obs_key(d0[i])] for hs in seeds_probe}
+    for hs in seeds_probe:
+        unsettled.update(cross[hs])
+    f_idx = sorted(unsettled)
+    f_runs = {}
+    for hs in ('0',) + seeds_probe:
+        sub = [i for i in f_idx if hs == '0' or i in set(cross[hs]) or i in set(need_d)]
+        f_runs[hs] = dict(zip(sub, run_impl([lines[i] for i in sub], specpath, hashseed=hs, det=2))) if sub else {}
+    t_probe = time.time() - t0
+
+    def settled(i):
+        """(reproducible in mode D?, result used for reporting) for seed 0"""
+        d = d0.get(i) or {}
+        if d.get('st') == 'ok' and obs_key(d) == obs_key2(d):
+            return True, d
+        f = f_runs['0'].get(i) or {}
+        if f.get('st') == 'ok' and obs_key(f) == obs_key2(f):
+            return True, f
+        return False, (f if f else d)
+
     for i in rand_only:
         nd_classes['same process:' + KF_RAND] += 1
         if KF_RAND in known:
             kf.append((KF_RAND, 'two compilations of the same statement differ only by the constant that '
-                                'scan_check_ctes draws with random.randint: ' + dec_case(lines[i])[2][:120]))
+                                'scan_check_ctes draws with random.randint'))
+            kf_examples[KF_RAND].append(dec_case(lines[i])[2][:200])
         else:
             nd_violation(i, 'same process; only the random constant of the check_scan CTE differs',
                          obs_key(impl[i], False), obs_key2(impl[i], False),
                          {'classes': [KF_RAND], 'proposed_known_finding': [KF_RAND]}, pr=3)
     for i in sorted(need_d, key=lambda i: len(lines[i])):
-        r, d = impl[i], d0.get(i) or {}
-        if d.get('st') != 'ok':
-            nd_classes['same process:unexplained'] += 1
-            nd_violation(i, f'same process; and the statement is {d.get("st")} in mode D', obs_key(r, False),
-                         obs_key2(r, False), {'mode_D': {k: d.get(k) for k in ('st', 'err')}})
-            continue
-        if obs_key(d) == obs_key2(d):
-            why = [KF_SETORDER] + ([KF_RAND] if obs_key(d, False) != obs_key2(d, False) else [])
+        r = impl[i]
+        ok_d, d = settled(i)
+        if ok_d:
+            why = [KF_SETORDER] + ([KF_RAND] if obs_key(d, False) != obs_key2(d, False)
+                                   or mask_rand(r.get('sql')) != (r.get('sql') or '') else [])
             for w in why:
                 nd_classes['same process:' + w] += 1
             if all(w in known for w in why):
                 kf.append((KF_SETORDER, 'two compilations of the same statement differ (alias counters, order of join '
                                         'conditions / columns / CTEs, choice among equivalent column sources); '
                                         'reproducible once object-identity hashes and fresh UUIDs are made '
-                                        'deterministic: ' + dec_case(lines[i])[2][:120]))
+                                        'deterministic'))
+                kf_examples[KF_SETORDER].append(dec_case(lines[i])[2][:200])
                 if KF_RAND in why:
-                    kf.append((KF_RAND, 'random constant of the check_scan CTE'))
+                    kf.append((KF_RAND, 'two compilations of the same statement differ only by the constant that '
+                                        'scan_check_ctes draws with random.randint'))
             else:
                 nd_violation(i, 'same process; reproducible in mode D = deterministic identity hashes and UUIDs',
                              obs_key(r, False), obs_key2(r, False),
                              {'classes': why, 'proposed_known_finding': [w for w in why if w not in known]}, pr=3)
         else:
             nd_classes['same process:unexplained'] += 1
-            nd_violation(i, 'same process; persists with deterministic identity hashes and UUIDs',
-                         obs_key(d, False), obs_key2(d, False), {'mode': 'D'})
+            if d.get('st') != 'ok':
+                nd_violation(i, f'same process; and the statement is {d.get("st")} in mode D', obs_key(r, False),
+                             obs_key2(r, False), {'mode_D': {k: d.get(k) for k in ('st', 'err')}})
+            else:
+                nd_violation(i, 'same process; persists with deterministic identity hashes and UUIDs (one fork per '
+                                'compilation)', obs_key(d, False), obs_key2(d, False), {'mode': 'D'})
+    # mode D must itself be reproducible on the probe, else the attribution above means nothing
+    for i in probe:
+        if i in set(need_d):
+            continue
+        ok_d, d = settled(i)
+        if not ok_d and d.get('st') == 'ok':
+            nd_classes['mode D:unexplained'] += 1
+            nd_violation(i, 'mode D, one fork per compilation', obs_key(d, False), obs_key2(d, False), {'mode': 'D'})
 
     cross_diff = 0
     for hs in seeds_probe:
-        t0 = time.time()
-        other = run_impl([lines[i] for i in probe], specpath, hashseed=hs, det=True)
-        differing = []
-        for i, o in zip(probe, other):
-            d = d0.get(i) or {}
-            if d.get('st') != 'ok' or o.get('st') != 'ok':
-                if d.get('st') != o.get('st'):
-                    cross_diff += 1
-                    viol.append((0, f'not deterministic: {d.get("st")} with PYTHONHASHSEED=0, {o.get("st")} with {hs}',
-                                 payload(i, {'seed0': {k: d.get(k) for k in ("st", "err")},
-                                             'other': {k: o.get(k) for k in ("st", "err")}}), True))
-                continue
-            if obs_key(d) != obs_key(o):
+        for i in cross[hs]:
+            f0, fh = f_runs['0'].get(i) or {}, f_runs[hs].get(i) or {}
+            if f0.get('st') != fh.get('st') and 'timeout' not in (f0.get('st'), fh.get('st')):
                 cross_diff += 1
-                differing.append((i, o))
-            # mode D must itself be reproducible in-process, else the attribution above means nothing
-            if hs == seeds_probe[0] and i not in set(need_d) and obs_key(d) != obs_key2(d):
-                nd_classes['mode D:unexplained'] += 1
-                nd_violation(i, 'same process, mode D', obs_key(d, False), obs_key2(d, False), {'mode': 'D'})
-        # attribution: a fresh process with the SAME hash seed must reproduce the seed-0 output exactly
-        again = dict(zip([i for i, _ in differing],
-                         run_impl([lines[i] for i, _ in differing], specpath, hashseed='0', det=True))) \
-            if differing else {}
-        t_probe += time.time() - t0
-        for i, o in differing:
-            d = d0[i]
-            a = again.get(i) or {}
-            if a.get('st') == 'ok' and obs_key(a) == obs_key(d):
+                viol.append((0, f'not deterministic: {f0.get("st")} with PYTHONHASHSEED=0, {fh.get("st")} with {hs}',
+                             payload(i, {'seed0': {k: f0.get(k) for k in ("st", "err")},
+                                         'other': {k: fh.get(k) for k in ("st", "err")}}), True))
+                continue
+            if f0.get('st') != 'ok' or fh.get('st') != 'ok':
+                continue
+            if obs_key(f0) == obs_key(fh):
+                continue            # an artefact of the in-process variant's history: not a difference
+            cross_diff += 1
+            if obs_key(f0) == obs_key2(f0) and obs_key(fh) == obs_key2(fh):
                 nd_classes[f'hashseed 0 vs {hs}:' + KF_HASHSEED] += 1
                 if KF_HASHSEED in known:
                     kf.append((KF_HASHSEED, 'the emitted SQL depends on PYTHONHASHSEED (iteration over sets whose element '
-                                            'hashes derive from str hashes, e.g. PathId): ' + dec_case(lines[i])[2][:120]))
+                                            'hashes derive from str hashes, e.g. PathId)'))
+                    kf_examples[KF_HASHSEED].append(dec_case(lines[i])[2][:200])
                 else:
-                    nd_violation(i, f'PYTHONHASHSEED 0 vs {hs}; identity hashes and UUIDs deterministic in both; a second '
-                                    'process with seed 0 reproduces the seed-0 text', obs_key(d, False), obs_key(o, False),
+                    nd_violation(i, f'PYTHONHASHSEED 0 vs {hs}; identity hashes, UUIDs and addresses fixed in both; '
+                                    'reproducible within each seed', obs_key(f0, False), obs_key(fh, False),
                                  {'mode': 'D', 'classes': [KF_HASHSEED], 'proposed_known_finding': [KF_HASHSEED]}, pr=3)
             else:
                 nd_classes[f'hashseed 0 vs {hs}:unexplained'] += 1
-                nd_violation(i, f'PYTHONHASHSEED 0 vs {hs}, and two processes with the same seed also differ',
-                             obs_key(d, False), obs_key(o, False), {'mode': 'D'})
+                nd_violation(i, f'PYTHONHASHSEED 0 vs {hs}, and not reproducible within one seed either',
+                             obs_key(f0, False), obs_key(fh, False), {'mode': 'D'})
 
     # ---- the validator against the Python reference on mutated terms (malformed stream)
     rndm = lib.rng('C13mut')
@@ -760,8 +810,13 @@ def run(tier):
         'coq_vm_compute_disagreements': len(coq_diff),
         'nondeterministic_in_process': len(nondet_in),
         'hashseed_probe_cases': len(probe) * len(seeds_probe),
+        'mode_D_inprocess_cases': len(d_idx) * (1 + len(seeds_probe)),
+        'mode_D_fork_confirmations': sum(len(v) for v in f_runs.values()),
+        'address_randomisation_off_in_mode_D': bool(noaslr_prefix()),
         'hashseed_probe_differences': cross_diff,
         'nondeterminism_classes': dict(nd_classes),
+        'known_finding_examples': {k: sorted(v, key=len)[:3] for k, v in kf_examples.items()},
+        'known_finding_case_counts': {k: len(v) for k, v in kf_examples.items()},
         'impl_wall_s': round(t_impl, 1),
         'probe_wall_s': round(t_probe, 1),
         'trusted_base': [
@@ -811,7 +866,7 @@ def replay(path):
     if r.get('sql2') is not None:
         print('  second compilation differs:', I.first_diff(r.get('sql', ''), r.get('sql2', '')),
               ' only the check_scan constant:', obs_key(r) == obs_key2(r))
-        dd = run_impl([case], specpath, nproc=1, det=True)[0]
+        dd = run_impl([case], specpath, nproc=1, det=2)[0]
         print('  in mode D (deterministic identity hashes / UUIDs) the two compilations are equal:', obs_key(dd) == obs_key2(dd))
     if r.get('sql'):
         print('sql    :', r['sql'][:3000])
